@@ -6,7 +6,7 @@ import io
 from hypothesis import strategies as st
 
 from pbt import common, gens, libside, refsem
-from pbt.drive import Err, HypStage, Violation, lib
+from pbt.drive import EnumStage, Err, HypStage, Violation, lib
 
 ID = "C02"
 RULE = (
@@ -107,7 +107,14 @@ def stages(tier):
     return [
         HypStage("constructive", lambda: gens.input_case(gens.opts(long_strings=True, null_structs=True, multidim_dyn=True, bits_char=True, bits_odd=True, wide_bits=True)), examples=(1200 if tier == "quick" else 6000), shards=8 if tier == "quick" else 16),
         HypStage("raw", raw_case, examples=(600 if tier == "quick" else 4000), shards=4 if tier == "quick" else 8),
+        EnumStage("triples", _triples, shards=4, exhaustive=False, scope="every ordered triple of 17 field kinds (incl. enum-, char- and 24-bit-backed bit-fields) x {packed, aligned}, compiled reader, one patterned input each"),
     ]
+
+
+def _triples():
+    from props.c03 import triple_cases
+
+    yield from triple_cases()
 
 
 # ---------------------------------------------------------------- known findings
